@@ -21,11 +21,14 @@ def parseText? (s : String) : Option String := do
 def renderOptBytes (r : Res (Option Bytes)) : String :=
   Res.render (r.map fun o => match o with | some b => toHex b | none => "False")
 
-/-- (version, payload) of the P2PKH address of a serialized key under a chain -/
-def p2pkh (ch : Spec.ChainParams) (pub : Bytes) : Nat × Bytes := (ch.pubkeyAddr, Model.Keys.p2pkhPayload pub)
+/-- an address text transported as the hex of its ASCII bytes -/
+def parseAscii? (s : String) : Option (List Char) :=
+  if s == "-" then some [] else (parseHex? s).map fun bs => bs.map fun b => Char.ofNat b.toNat
 
-def vm (ch : Spec.ChainParams) (addr : Nat × Bytes) (magic msg sig : Bytes) : String :=
-  Res.render ((Model.Keys.verifyMessage ch.pubkeyAddr addr.1 addr.2 magic msg sig).map bit)
+def asciiHex (cs : List Char) : String := toHex (cs.map fun c => UInt8.ofNat c.toNat)
+
+def vm (ch : Spec.ChainParams) (addrText : List Char) (magic msg sig : Bytes) : String :=
+  Res.render ((Model.Keys.verifyMessage ch.pubkeyAddr addrText magic msg sig).map bit)
 
 def handle (op : String) (args : List String) : Option String :=
   match op, args with
@@ -66,19 +69,26 @@ def handle (op : String) (args : List String) : Option String :=
                             else s!"bad:model-recid={i},lowS={bit (Secp256k1.isLowS s)}"
            | .error e => "err:" ++ e.family)
       | _, _, _, _ => badArgs
-  | "c14.verify", [chain, ver, payload, magic, text, sig] => some <|
-      match Spec.chainByName? chain, parseNat? ver, parseHex? payload, parseText? magic, parseText? text,
-            parseHex? sig with
-      | some ch, some ver, some payload, some magic, some text, some sig =>
-          vm ch (ver, payload) magic.toUTF8.toList text.toUTF8.toList sig
-      | _, _, _, _, _, _ => badArgs
-  | "c14.msg", [chain, secret, c, text, other, text2, sig] => some <|
+  | "c14.verify", [chain, addr, magic, text, sig] => some <|
+      match Spec.chainByName? chain, parseAscii? addr, parseText? magic, parseText? text, parseHex? sig with
+      | some ch, some addr, some magic, some text, some sig =>
+          vm ch addr magic.toUTF8.toList text.toUTF8.toList sig
+      | _, _, _, _, _ => badArgs
+  | "c14.p2pkhText", [chain, pub] => some <|
+      match Spec.chainByName? chain, parseHex? pub with
+      | some ch, some pub => asciiHex (Model.Keys.p2pkhText ch.pubkeyAddr pub)
+      | _, _ => badArgs
+  | "c14.msg", [chain, secret, c, text, _other, text2, sig, ownT, otherT, p2shT, segT] => some <|
       -- verdicts on a signature the library produced for (secret, compression, text):
-      -- length, header byte, reference recovery = signer's key, then VerifyMessage for the signer's
-      -- address / another key's address / the signer's hash under the script version / another text
-      match Spec.chainByName? chain, parseHex? secret, parseBool? c, parseText? text, parseHex? other,
-            parseText? text2, parseHex? sig with
-      | some ch, some secret, some c, some text, some other, some text2, some sig =>
+      -- length; header byte + recovery (reference SEC 1 recovery AND the model of `recover_compact` must
+      -- both give the signer's key); the model's text of the signer's address equals the library's; then
+      -- the model of VerifyMessage for the texts of: the signer's address, another key's address, the
+      -- P2SH and the segwit address carrying the same hash160, and the signer's address with another text
+      match Spec.chainByName? chain, parseHex? secret, parseBool? c, parseText? text,
+            parseText? text2, parseHex? sig, parseAscii? ownT, parseAscii? otherT, parseAscii? p2shT,
+            parseAscii? segT with
+      | some ch, some secret, some c, some text, some text2, some sig, some ownT, some otherT, some p2shT,
+        some segT =>
           let magic := Spec.Keys.messageMagic
           let msg := text.toUTF8.toList
           let pub := Model.Keys.pubOfSecret secret c
@@ -86,19 +96,24 @@ def handle (op : String) (args : List String) : Option String :=
           let hdr := match sig with | h :: _ => h.toNat | [] => 0
           let r := beNat ((sig.drop 1).take 32)
           let s := beNat ((sig.drop 33).take 32)
-          let hdrOk := match Spec.Keys.headerDecode hdr with
+          let refOk := match Spec.Keys.headerDecode hdr with
             | some (recid, c') =>
                 c' == c &&
                 (match Secp256k1.recover (Secp256k1.digestNat digest) r s recid with
                  | some Q => Secp256k1.encode Q c == pub
                  | none => false)
             | none => false
-          let own := vm ch (p2pkh ch pub) magic msg sig
-          let oth := vm ch (p2pkh ch (Model.Keys.pubOfSecret other c)) magic msg sig
-          let p2sh := vm ch (ch.scriptAddr, Model.Keys.p2pkhPayload pub) magic msg sig
-          let pert := vm ch (p2pkh ch pub) magic text2.toUTF8.toList sig
-          s!"len={sig.length} hdr={bit hdrOk} lowS={bit (Secp256k1.isLowS s)} own={own} other={oth} p2sh={p2sh} pert={pert}"
-      | _, _, _, _, _, _, _ => badArgs
+          let modelOk := match Model.Keys.recoverCompact digest sig with
+            | .ok (some pk) => pk == pub
+            | _ => false
+          let textOk := Model.Keys.p2pkhText ch.pubkeyAddr pub == ownT
+          let own := vm ch ownT magic msg sig
+          let oth := vm ch otherT magic msg sig
+          let p2sh := vm ch p2shT magic msg sig
+          let seg := vm ch segT magic msg sig
+          let pert := vm ch ownT magic text2.toUTF8.toList sig
+          s!"len={sig.length} hdr={bit (refOk && modelOk)} lowS={bit (Secp256k1.isLowS s)} addr={bit textOk} own={own} other={oth} p2sh={p2sh} segwit={seg} pert={pert}"
+      | _, _, _, _, _, _, _, _, _, _ => badArgs
   | _, _ => none
 
 end Driver.C14
